@@ -17,3 +17,35 @@ Lemma c11_write_paths_state_free :
   reads_ensureLinkPath = [] /\ reads_restoreDirModes = [] /\ reads_extractTarDirectory = [] /\
   reads_extractTarGzip = [].
 Proof. repeat split; vm_compute; reflexivity. Qed.
+
+(* the guards and statements that Model/FileConfine.v mirrors are in the source as the model has them
+   (kind c11_srcfact; one boolean per place, regenerated on every run) *)
+Lemma c11_modelled_guards_present :
+  forallb (fun x => x)
+    [c11_fact_traversal_test;
+     c11_fact_write_cleaned_path;
+     c11_fact_never_replace_wd;
+     c11_fact_remove_link_before_create;
+     c11_fact_cleanup_target;
+     c11_fact_lstat_each_element;
+     c11_fact_link_refused;
+     c11_fact_dir_continues;
+     c11_fact_mkdir_missing;
+     c11_fact_outside_test;
+     c11_fact_parent_loop;
+     c11_fact_parent_loop_step;
+     c11_fact_parent_link_refused;
+     c11_fact_missing_tolerated;
+     c11_fact_target_relative_to_link;
+     c11_fact_target_validated;
+     c11_fact_hardlink_oldname;
+     c11_fact_no_file_or_link_at_base;
+     c11_fact_chtimes_not_through_link;
+     c11_fact_dir_no_symlink;
+     c11_fact_symlink_raw_target;
+     c11_fact_modes_after_last_entry;
+     c11_fact_skip_non_directories;
+     c11_fact_lstat;
+     c11_fact_only_links;
+     c11_fact_remove_link_before_open] = true.
+Proof. vm_compute. reflexivity. Qed.
